@@ -124,16 +124,16 @@ PROPS = {
     },
     "C13": {
         "level": "model_checking",
-        "technique": "stateless model checking of the real zero-copy connection attach/detach/force-remove code over the process-local storage (its pthread mutex under scheduler control)",
-        "legs": [{"ws": "mc", "bin": "h_conn", "args": ["--only", "lifecycle/"]}],
+        "technique": "stateless model checking of the real zero-copy connection attach/detach/force-remove code over the process-local storage (its pthread mutex under scheduler control); bounded-exhaustive sequential histories of attach (matching and every mismatching parameter, also as duplicate of a held role) / detach / forced removal / exchange on the process-local, posix-shared-memory and file connection against a reference model (seqx leg)",
+        "legs": [{"ws": "mc", "bin": "h_conn", "args": ["--only", "lifecycle/"]}, {"ws": "seq", "bin": "h_connseq"}],
         "rule": "one case = per-thread programs over {create_sender, create_receiver, use, drop, leak+force-remove} with matching or mismatching parameters (lifecycle cases), "
                 "or a sender thread (try_send, reclaim) against a receiver thread (receive, release) (data cases); every schedule within the bounds is executed on the real code",
-        "assumptions": IXMC_ASSUME + ["pthread mutexes are modelled by the scheduler (owner tracking, blocked threads are disabled); pthread_mutex_timedlock is modelled as a blocking lock", "the dynamic storage is the process-local one; the posix shared memory storage shares the connection code (common.rs) but not the storage code"],
+        "assumptions": IXMC_ASSUME + ["pthread mutexes are modelled by the scheduler (owner tracking, blocked threads are disabled); pthread_mutex_timedlock is modelled as a blocking lock", "thread leg: the dynamic storage is the process-local one; the posix shared memory storage shares the connection code (common.rs) but not the storage code", "sequential leg (h_connseq): tree depth 5 (process-local) / 3 (posix shm, file) quick, 6 / 4 thorough, every prefix finished (detach all, name reusable with other parameters), then breadth-first over all distinct model states (507 for process-local, 21 for the projections of the others) to depth 10-12"],
         "design_ref": "DESIGN.md §3.1, §4 C13",
         "level_text": "All schedules of 2-3 threads attaching, using, detaching and force-removing the sender and receiver role of one connection name are executed on the "
                       "real code up to the stated bounds: never two holders of one role, a live port always sits on an existing resource, mismatches are refused, after the "
                       "last detach the resource is gone and the name reusable; plus the offset conservation of the data path (also part of C03).",
-        "level_note": "trusted: ixmc scheduler incl. its mutex model; bounded: <=3 threads, <=4 steps each, PB<=2 quick (1 for 3 threads) / <=3 thorough",
+        "level_note": "trusted: ixmc scheduler incl. its mutex model; bounded: <=3 threads, <=4 steps each, PB<=2 quick (1 for 3 threads) / <=3 thorough; sequential histories to the depths above",
     },
     "C14": {
         "level": "exploration",
